@@ -88,8 +88,11 @@ impl TryFrom<&[u8]> for Request {
         // array of len 4. Technically the first of these bytes is `p2` the second parameter,
         // but in the base U2F spec this will always be 0. So this length is safe.
         let data_len = u32::from_be_bytes(value[3..data_start].try_into().unwrap()) as usize;
-        let data_end = data_start + data_len;
-        let payload = &value[data_start..data_end];
+        // The declared length must be covered by what was received.
+        let payload = data_start
+            .checked_add(data_len)
+            .and_then(|data_end| value.get(data_start..data_end))
+            .ok_or(ResponseStatusWords::WrongLength)?;
 
         let data = match ins {
             Command::Register => RequestPayload::Register(
@@ -98,10 +101,16 @@ impl TryFrom<&[u8]> for Request {
                     // Wrong length because it must be two SHA256's which are 32 bytes each
                     .map_err(|_| ResponseStatusWords::WrongLength)?,
             ),
-            Command::Authenticate => RequestPayload::Authenticate(
-                AuthenticationRequest::try_from(payload, p1)
-                    .map_err(|_| ResponseStatusWords::WrongLength)?,
-            ),
+            Command::Authenticate => {
+                // Only the control bytes defined by the specification can be converted.
+                if !matches!(p1, 0x03 | 0x07 | 0x08) {
+                    return Err(ResponseStatusWords::WrongData);
+                }
+                RequestPayload::Authenticate(
+                    AuthenticationRequest::try_from(payload, p1)
+                        .map_err(|_| ResponseStatusWords::WrongLength)?,
+                )
+            }
             Command::Version => RequestPayload::Version,
             Command::Unsuported(_) => return Err(ResponseStatusWords::InsNotSupported),
         };
